@@ -82,14 +82,14 @@ theorem C15_packets_well_framed (cap : Nat) (s : Bytes) : ∀ pkt ∈ (frames ca
     (∃ hl, fixedHeader pkt = .complete hl pkt.length) ∧ pkt.length ≤ cap :=
   frames_packets cap s
 
-/-- **Safety of every reachable reader state** (`Reach`: the loop as a relation, every choice of
+/-- **Safety of every reachable reader state** (`RdReach`: the loop as a relation, every choice of
 every read allowed). The buffer never holds more than its capacity; a window offered by
 `receive_buffer` stays inside the buffer, is empty only when a complete packet is held (so
 `read()` is never called with an empty buffer while a packet is still incomplete), and — whenever
 the stream from the current packet on has a complete fixed header announcing `t` bytes — never
 reaches past byte `t`: no byte of the next packet is ever consumed early. -/
 theorem C15_reader_safe {r0 : Reader} {stream : Bytes} (hd : r0.data = [])
-    (hp : r0.packetLength = none) {r : Reader} {unread : Bytes} (h : Reach r0 stream r unread) :
+    (hp : r0.packetLength = none) {r : Reader} {unread : Bytes} (h : RdReach r0 stream r unread) :
     r.data.length ≤ r.cap ∧
     ∀ r1 n, r.receiveWindow = some (r1, n) →
       r.data.length + n ≤ r.cap ∧
@@ -103,9 +103,9 @@ theorem C15_empty_window_means_packet (r r1 : Reader) (h : r.receiveWindow = som
     r1.packetAvailable = true :=
   receiveWindow_zero r r1 h
 
-/-- `Reach` is not empty beyond its start: one byte read into a new reader. -/
-example : Reach (Reader.new 8) [0xD0, 0x00] ((Reader.new 8).commit [0xD0]) [0x00] :=
-  Reach.read (r1 := Reader.new 8) (n := 1) (k := 1) Reach.init rfl rfl (by decide) (by decide)
+/-- `RdReach` is not empty beyond its start: one byte read into a new reader. -/
+example : RdReach (Reader.new 8) [0xD0, 0x00] ((Reader.new 8).commit [0xD0]) [0x00] :=
+  RdReach.read (r1 := Reader.new 8) (n := 1) (k := 1) RdReach.init rfl rfl (by decide) (by decide)
     (by decide)
 
 /-- **Partial writes of a queued packet** (`perform_outbound_step`, `SendState::set_written`). For
